@@ -306,6 +306,21 @@ except Exception as e:
     res = None
     report = {'ok': False, 'exc': type(e).__name__, 'msg': str(e)[:300],
               'lineno': getattr(e, 'lineno', None), 'offset': getattr(e, 'offset', None)}
+def sig(x):
+    if hasattr(x, 'triples'):
+        return repr((x.triples, x._top, sorted(((k, [repr(e) for e in v]) for k, v in x.epidata.items()), key=repr), dict(x.metadata)))
+    if hasattr(x, 'node'):
+        return repr((x.node, dict(x.metadata)))
+    return repr(x)
+changed = []
+for nm, a, s0 in zip(pnames, args, snap):
+    if nm not in modifies and not callable(a) and not hasattr(a, '_role_re'):
+        try:
+            if sig(a) != sig(s0):
+                changed.append(nm)
+        except Exception:
+            pass
+report['arguments_changed'] = changed
 if cfn is not None and report.get('ok'):
     # parameters denote their entry values unless the function may modify them in place
     cargs, olds = [], {}
@@ -557,6 +572,10 @@ def judge(eng, key, info, m, nat, ob):
         if not allowed:
             return True, 'raised %s (%s), which the contract does not allow' % (exc, nat.get('msg', '')[:100])
         return False, 'raised %s, allowed by the contract (its `when` clause is not re-evaluated natively)' % exc
+    if ob.kind == 'frame':
+        if nat.get('arguments_changed'):
+            return True, 'the call changed its argument(s) %s, which the contract does not list under modifies' % nat['arguments_changed']
+        return False, 'the arguments are unchanged after the call on the decoded input'
     clauses = nat.get('clauses')
     if clauses is None:
         return False, 'the contract could not be evaluated natively (%s)' % nat.get('clauses_error', 'no clauses')
